@@ -531,7 +531,8 @@ def fmtCpModel (m : CpModel) : String :=
     | .interval iv => s!"itv {iv.1} {iv.2.1} {iv.2.2}"
     | .noOverlap ivs => "noov " ++ " ".intercalate (ivs.map idxOf)
     | .linMax t es => s!"linmax {t} : {fmtNats es}"
-  doms ++ " | " ++ " | ".intercalate cons ++ s!" | min {m.objective}"
+  -- `_initialize_model` sets exactly one solver parameter when no time limit is given
+  doms ++ " | " ++ " | ".intercalate cons ++ s!" | min {m.objective} | params log_search_progress: false"
 
 def fmtBars (bs : List Bar) : String :=
   lst (" ".intercalate (bs.map fun b => s!"{b.y}:{b.x}:{b.width}:{b.job}"))
@@ -541,6 +542,9 @@ def stepAll (d : DW) (line : String) : DW × String :=
   | "inst" :: _ =>
     let (w', out) := step d.w line
     ({ w := w', fw := FWorld.init w'.cfg }, out)
+  | ["redisp"] =>
+    -- a new Dispatcher on the same instance object: nothing of the old dispatcher or its observers carries over
+    ({ w := World.init d.w.cfg, fw := FWorld.init d.w.cfg }, "ok")
   | "filter" :: _ =>
     let (w', out) := step d.w line
     ({ w := w', fw := { d.fw with cfg := w'.cfg } }, out)
